@@ -11,6 +11,7 @@ package sm2
 // facts about package-level variables established by package initialisation
 // (ground facts, checked by evaluating the initialised values: see DESIGN.md)
 //@ global_fact one: *one == 1
+//@ global_fact scalarOne: sv(scalarOne) == 1 && oksm2Scalar(scalarOne)
 //@ global_fact n: *n == N
 //@ global_fact nBytes: len(nBytes) == 32 && be(nBytes) == N
 //@ global_fact nMinus1Bytes: len(nMinus1Bytes) == 32 && be(nMinus1Bytes) == N - 1
@@ -104,13 +105,19 @@ package sm2
 //@ after kG, err = internal.ScalarBaseMult(KK) :: trust order: isinf(gmul(be(K[0:32]))) == (be(K[0:32]) % N == 0)
 //@ after rInt.Mod(&rInt, n) :: reveal(std_r(be(e), be(K[0:32])))
 //@ after rInt.Mod(&rInt, n) :: assert rdef: rInt == std_r(be(e), be(K[0:32]))
-//@ after copy(buf[32-len(d1Bytes):], d1Bytes) :: leftpad(buf[0:32], d1Bytes)
-//@ after d1.SetBytes(buf[:]) :: assert d1def: sv(d1) == 1 + be(priv)
+//@ after kS.SetBytes(K[:]) :: assert kdef: sv(kS) == be(K[0:32]) && oksm2Scalar(kS)
+//@ after rS.SetBytes(rBytes) :: assert rsdef: sv(rS) == rInt && oksm2Scalar(rS)
+//@ after rk.Add(&rS, &kS) :: assert rkdef: sv(rk) == (rInt + be(K[0:32])) % N
+//@ after copy(dBytes[32-len(priv):], priv) :: leftpad(dBytes[0:32], priv)
+//@ after dS.SetBytes(dBytes[:]) :: assert ddef: sv(dS) == be(priv) && oksm2Scalar(dS)
+//@ after d1.Add(&dS, scalarOne) :: assert d1def: sv(d1) == 1 + be(priv)
 //@ after d1Inv.Invert(&d1) :: assert udef: sv(d1Inv) == invmod(1 + be(priv), N)
-//@ after sInt.Mod(&sInt, n) :: trust L2: (rkInt * invmod(1 + be(priv), N) - rInt) % N == (invmod(1 + be(priv), N) * ((k - rInt * be(priv)) % N)) % N
-//@ after sInt.Mod(&sInt, n) :: reveal(std_s(be(priv), be(e), be(K[0:32])))
-//@ after sInt.Mod(&sInt, n) :: reveal(std_r(be(e), be(K[0:32])))
-//@ after sInt.Mod(&sInt, n) :: assert sdef: sInt == std_s(be(priv), be(e), be(K[0:32]))
+//@ after sS.Mul(&rk, &d1Inv) :: assert muldef: sv(sS) == (((rInt + be(K[0:32])) % N) * invmod(1 + be(priv), N)) % N
+//@ after sS.Sub(&sS, &rS) :: assert subdef: sv(sS) == ((((rInt + be(K[0:32])) % N) * invmod(1 + be(priv), N)) % N - rInt) % N
+//@ after sS.Sub(&sS, &rS) :: trust L2: ((((rInt + be(K[0:32])) % N) * invmod(1 + be(priv), N)) % N - rInt) % N == (invmod(1 + be(priv), N) * ((be(K[0:32]) - rInt * be(priv)) % N)) % N
+//@ after sS.Sub(&sS, &rS) :: reveal(std_s(be(priv), be(e), be(K[0:32])))
+//@ after sS.Sub(&sS, &rS) :: reveal(std_r(be(e), be(K[0:32])))
+//@ after sS.Sub(&sS, &rS) :: assert sdef [from subdef, L2, rdef, rsdef, kdef, rkdef, muldef, udef, d1def, ddef, reveal:std_s, reveal:std_r]: sv(sS) == std_s(be(priv), be(e), be(K[0:32]))
 //@ loop 1
 //@ modifies rdidx
 //@ invariant idx: old(rdidx) <= rdidx
@@ -161,8 +168,8 @@ package sm2
 //@ secret priv
 //@ declassify utils.ConstantTimeCmp(K[:], nBytes[:], 32) >= 0 || utils.ConstantTimeCmp(K[:], zeroK[:], 32) == 0 : rejection of an out-of-range nonce candidate; the candidate is discarded (accept/reject verdict)
 //@ declassify utils.ConstantTimeCmp(K[:], nBytes[:], 32) >= 0 : same verdict, first half
-//@ declassify sInt.Sign() == 0 : s is the published signature value; s = 0 restarts with a fresh nonce (verdict)
-//@ declassify &sInt : s is the published signature value
+//@ declassify rk.IsZero() == 1 : rejection of a candidate with r + k = n; the candidate is discarded (accept/reject verdict)
+//@ declassify sS.IsZero() == 1 : s is the published signature value; s = 0 restarts with a fresh nonce (verdict)
 
 //@ func sm2.GenerateKey#ct
 //@ declassify pub.Bytes() : the affine coordinates of [d]G are the public key
